@@ -154,7 +154,8 @@ MAXOFF = 57600
 
 def wall_windows(pieces, rnd, nrandom, halfwidth=200 * 60, full=False):
     """windows of wall time (seconds from 2000-01-01 on the local clock) to sweep"""
-    lo, hi = T0 + MAXOFF, T1 - MAXOFF
+    # every local date-time of the supported years 2000..2049 (wall clock); the instants may lie up to a day outside
+    lo, hi = T0, T1
     if full:
         return [(lo, hi)]
     wins = []
@@ -166,6 +167,9 @@ def wall_windows(pieces, rnd, nrandom, halfwidth=200 * 60, full=False):
         w = rnd.randrange(lo, hi - 60)
         w -= w % 60
         wins.append((w, w + 60))
+    # the first and the last day of the supported years
+    wins.append((lo, lo + 86400))
+    wins.append((hi - 86400, hi))
     wins = sorted((max(lo, a), min(hi, b)) for a, b in wins if min(hi, b) > max(lo, a))
     merged = []
     for a, b in wins:
@@ -208,7 +212,9 @@ def check_wall(chk, exe, db, dbdir, policy, label, nrandom, full=False, grid=60)
     idx = {n: i for i, n in enumerate(allnames)}
     names = [n for n in allnames if n in zones]
     model_path = os.path.join(work, 'model.json')
-    tzparse.write_model(model_path, rules, zones, only=set(names))
+    # the model's observation window is widened by two days on either side: wall times of 2000-01-01 / 2049-12-31 map to
+    # instants just outside [2000, 2050)
+    tzparse.write_model(model_path, rules, zones, only=set(names), winlo=-2, winhi=18265)
     zic, _msg = zicoracle.compile_and_dump(lines, names, work)
     rnd = random.Random(common.seed() * 7919 + 17)
     windows = {n: wall_windows(zic[n], rnd, nrandom, full=full) for n in names}
